@@ -724,6 +724,21 @@ def has_side_effect(node: ast.AST, safe_callable_whitelist: Collection[str] = fr
         if isinstance(node.func, ast.Attribute) and isinstance(node.func.value, ast.Constant):
             safe_callable_whitelist = safe_callable_whitelist | {node.func.attr}
 
+        # map(print, xs) and sorted(xs, key=show) call what they are given
+        callbacks = [keyword.value for keyword in node.keywords if keyword.arg == "key"]
+        if match_template(node.func, ast.Name(id=("map", "filter"))) and node.args:
+            callbacks.append(node.args[0])
+        for callback in callbacks:
+            if match_template(callback, ast.Constant(value=None)):
+                continue
+            if isinstance(callback, ast.Name) and callback.id in safe_callable_whitelist:
+                continue
+            if isinstance(callback, ast.Lambda) and not has_side_effect(
+                callback.body, safe_callable_whitelist
+            ):
+                continue
+            return True
+
         return (
             not all(
                 child.id in safe_callable_whitelist or child.id == "_"
